@@ -931,8 +931,8 @@ RULE_SAFE = ("restricted domain of the same generator: every hold is zero-length
 
 def _lock_obls():
     out = []
-    budgets = {"resource": (900, 40000), "preemptible": (700, 30000), "semaphore": (350, 16000), "mutex": (300, 14000),
-               "rwlock": (350, 16000)}
+    budgets = {"resource": (900, 40000), "preemptible": (700, 30000), "semaphore": (250, 16000), "mutex": (200, 14000),
+               "rwlock": (250, 16000)}
     for prim, (q, t) in budgets.items():
         out.append(Obligation(prim, cap_strategy(False), lock_execute(prim, prim), {"quick": q, "thorough": t},
                               f"{prim}: {RULE_CAP}"))
@@ -943,13 +943,13 @@ def _lock_obls():
 
 
 OBLIGATIONS = _lock_obls() + [
-    Obligation("barrier", barrier_strategy(False), barrier_execute("barrier"), {"quick": 250, "thorough": 10000},
+    Obligation("barrier", barrier_strategy(False), barrier_execute("barrier"), {"quick": 160, "thorough": 10000},
                "parties 1-4 x 1-2 groups of workers, each waiting 1-3 generations with 0-2 ticks of work in between, start offsets "
                "0-3 ticks; a wait() must return exactly at the instant the last party of its generation arrives; non-trivial = "
                "parties>1 and every generation completed"),
     Obligation("barrier-safe", barrier_strategy(True), barrier_execute("barrier-safe"), {"quick": 60, "thorough": 600},
                "barrier with every worker starting at one instant and zero work between generations (the known spin cannot occur)"),
-    Obligation("condition", condition_strategy(False), condition_execute("condition", False), {"quick": 250, "thorough": 10000},
+    Obligation("condition", condition_strategy(False), condition_execute("condition", False), {"quick": 160, "thorough": 10000},
                "1-4 consumers (acquire mutex; while no item: cond.wait(); take item; release) and 1-3 producers (acquire; add 1-3 "
                "items; hold; notify(n)|notify_all; release) plus a final notify_all; non-trivial = a consumer returned from wait()"),
     Obligation("condition-safe", condition_strategy(True), condition_execute("condition-safe", True), {"quick": 800, "thorough": 20000},
